@@ -3,6 +3,8 @@
    item    = [L gate [loc] params kind] | [K [loc] [op ...]]
    check k [op ...] [item ...]                    -> T | F
    quick k fx nq ncyc [[cycle gate [loc] params kind] ...] [[hint ids] ...]
+                                                  -> OK [item ...] | ERR <name>
+   scan k nq ncyc [[cycle gate [loc] params kind] ...] [[group qudits] ...]
                                                   -> OK [item ...] | ERR <name> *)
 open Common
 open Part_model
@@ -33,6 +35,9 @@ let cop_of x = match list_of x with
   | _ -> failwith "cop"
 let verr = function EBadHint -> "EBadHint" | EAssert -> "EAssert" | ENoBin -> "ENoBin" | EFuel -> "EFuel" | EPending -> "EPending"
 
+let vserr = function SBadGroups -> "SBadGroups" | SWide -> "SWide" | SLoop -> "SLoop" | SEmptyBlock -> "SEmptyBlock"
+  | SEmptyFold -> "SEmptyFold" | SFuel -> "SFuel"
+
 let handle line = match parse line with
   | [A "check"; I k; i; o] ->
       let i = List.map (fun x -> op_of (list_of x)) (list_of i) in
@@ -44,6 +49,12 @@ let handle line = match parse line with
       (match quick (nat_of_int k) (fx <> 0) (nat_of_int nq) (z_of_int ncyc) ops hints with
        | Inl out -> L [A "OK"; L (List.map vitem out)]
        | Inr e -> L [A "ERR"; A (verr e)])
+  | [A "scan"; I k; I nq; I ncyc; ops; groups] ->
+      let ops = List.map cop_of (list_of ops) in
+      let groups = List.map nats (list_of groups) in
+      (match scan_default (nat_of_int k) (nat_of_int nq) (z_of_int ncyc) ops groups with
+       | Inl out -> L [A "OK"; L (List.map vitem out)]
+       | Inr e -> L [A "ERR"; A (vserr e)])
   | _ -> A "BADCMD"
 
 let () =
